@@ -31,6 +31,7 @@ type av struct{ T, V string }
 
 var oids = map[string]asn1.ObjectIdentifier{
 	"C": {2, 5, 4, 6}, "ST": {2, 5, 4, 8}, "L": {2, 5, 4, 7}, "STREET": {2, 5, 4, 9}, "O": {2, 5, 4, 10}, "OU": {2, 5, 4, 11}, "CN": {2, 5, 4, 3},
+	"SERIALNUMBER": {2, 5, 4, 5}, "POSTALCODE": {2, 5, 4, 17},
 	"UNKNOWN": {1, 2, 3, 4, 5},
 }
 
@@ -194,7 +195,7 @@ func main() {
 		"subjects with empty attribute values are not generated (whether they are 'interpretable' is not stated)"}
 	n := r.N(4000, 300000)
 	vals := []string{"US", "WA", "Org", "a,b", "x+y", `q"r`, `b\s`, "<t>", "s;t", " lead", "trail ", "#hash", "a=b", "Ünï", "A", "Org2", "DE", "x", "o u", "svc:prod", ":lead", "a:b:c", "svc"}
-	types := []string{"C", "ST", "O", "OU", "CN", "L", "STREET"}
+	types := []string{"C", "ST", "O", "OU", "CN", "L", "STREET", "SERIALNUMBER", "POSTALCODE"}
 	rootAttrs := []av{{"C", "US"}, {"ST", "WA"}, {"O", "RootOrg"}, {"CN", "root"}}
 	interAttrs := []av{{"C", "US"}, {"ST", "WA"}, {"O", "InterOrg"}, {"OU", "issuing"}}
 	root := lib.Mint(nil, lib.CertSpec{Kind: "ca", KeyIdx: 7, RawSubject: rawSubject([][]av{{rootAttrs[0]}, {rootAttrs[1]}, {rootAttrs[2]}, {rootAttrs[3]}})})
@@ -319,13 +320,20 @@ func main() {
 		case 8:
 			c.Shape = "non-x509-only"
 			c.Extra = []string{"foo:bar", "did:example:" + fmt.Sprint(rng.Intn(100))}
+			if rng.Bool() {
+				// an identity of ANOTHER kind whose prefix merely resembles x509.subject (other letter case, a suffix) and whose
+				// value happens to read like the leaf's subject: not an x509.subject identity
+				exactDN := strings.TrimPrefix(render(base, rng, 0), "x509.subject:")
+				c.Shape = "non-x509-only-lookalike-prefix"
+				c.Extra = []string{[]string{"X509.Subject:", "x509.Subject:", "X509.SUBJECT:", "x509.subjects:", "x509.subject.v2:", "x509subject:"}[rng.Intn(6)] + exactDN}
+			}
 		case 9:
 			if rng.Bool() {
 				// one RDN carrying two values of the SAME attribute type (how multiple OUs are usually encoded): not interpretable
 				c.Shape = "subject-multi-valued-rdn-same-type"
 				c.Interpret = false
 				k := rng.Intn(len(c.Subject))
-				for c.Subject[k][0].T == "CN" { // crypto/x509 keeps one CommonName only: a repeated CN is invisible, not judged
+				for c.Subject[k][0].T == "CN" || c.Subject[k][0].T == "SERIALNUMBER" { // crypto/x509 keeps one CommonName (one serialNumber) only: a repeated one is invisible, not judged
 					k = rng.Intn(len(c.Subject))
 				}
 				c.Subject[k] = append(c.Subject[k], av{c.Subject[k][0].T, c.Subject[k][0].V + "2"})
@@ -342,8 +350,8 @@ func main() {
 			c.Shape = "subject-duplicate-attribute"
 			c.Interpret = false
 			d := subj[rng.Intn(len(subj))]
-			if d.T == "CN" {
-				// crypto/x509 keeps a single CommonName, so a repeated CN is invisible to any Go consumer of the parsed
+			if d.T == "CN" || d.T == "SERIALNUMBER" {
+				// crypto/x509 keeps a single CommonName (and a single serialNumber), so a repeated CN is invisible to any Go consumer of the parsed
 				// certificate; whether such a subject "cannot be interpreted" is not stated -> only containment is judged
 				c.Shape = "subject-duplicate-cn-containment-only"
 				c.Interpret = true
@@ -578,6 +586,12 @@ func main() {
 						r.Event("uninterpretable-identity-next-to-matching-one")
 						if p2, ok2 := authPass(); ok2 && p2 {
 							r.Violation(map[string]string{"kind": "pass-with-uninterpretable-identity", "shape": c.Shape}, fmt.Sprintf("authenticity passed although the statement lists the uninterpretable identity %q (next to a matching one): must fail closed", bad), map[string]any{"identities": ids, "leaf_subject": leaf.Cert.Subject.String()})
+						}
+						// ... and a statement left with NO identity at all (emptied the same way) has no x509.subject identity
+						doc.TrustPolicies[0].TrustedIdentities = [][]string{nil, {}, {"did:example:only-another-kind"}}[rng.Intn(3)]
+						r.Event("statement-left-without-any-x509-identity")
+						if p3, ok3 := authPass(); ok3 && p3 {
+							r.Violation(map[string]string{"kind": "pass-without-any-identity", "shape": c.Shape}, fmt.Sprintf("authenticity passed although the statement's identity list is %q: a policy without any x509.subject identity fails closed", doc.TrustPolicies[0].TrustedIdentities), map[string]any{"leaf_subject": leaf.Cert.Subject.String()})
 						}
 					} else {
 						r.Event("verifier-does-not-see-later-edits")
